@@ -15,6 +15,7 @@ def rule_norm_path(ctx, r):
     (relative / absolute spellings, str / PathLike); the only branch it may take is on isabs()."""
     from ..paths import Explorer, Semantics, State, RETURN
     from ..symeval import Obj, PureInterp, Raised, Unsupported, tok
+    from .evalhelpers import anchored_norm
     idx = ctx.index
     np_ = idx.func(f"{CORE}:_norm_path")
     con = f"{np_.module.relpath}::{np_.qual}"
@@ -37,21 +38,24 @@ def rule_norm_path(ctx, r):
     bad_rel, bad_abs = [], []
     for p in ("x", "./x", "d/../x", "a//b", "sub/dir/f.txt"):
         got = ev(np_, WD, p)
-        want = {tok("abs:" + WD + "/" + p), tok("norm:" + WD + "/" + p)}
-        if got not in want:
+        if not anchored_norm(got, WD, p):
             bad_rel.append((p, got))
+    # a relative working directory (Target(working_dir="sub")) must be anchored too
+    got = ev(np_, "sub", "x")
+    if got != tok("abs:sub/x") and not (isinstance(got, str) and "⟦abs:" in got):
+        bad_rel.append(("working_dir='sub', path='x'", got))
     for p in ("/p/d/../x", "/p//x", "/p/./x", "/p/x"):
         got = ev(np_, WD, p)
         if got != "/p/x":
             bad_abs.append((p, got))
-    r.check(not bad_rel, con + "::relative", "a relative path is joined to the target's working directory and normalised (abspath/normpath of the join)",
+    r.check(not bad_rel, con + "::relative", "a relative path is joined to the target's working directory, anchored and normalised (abspath of the join)",
             f"relative spellings are not resolved as normalise(join(working_dir, path)): {[(p, str(g).replace(WD, '<wd>')) for p, g in bad_rel[:3]]} - spellings like './x' and 'd/../x' "
             "of one file no longer compare equal (or are resolved against the invoking directory), so dependency edges, the multiple-provider check and clean's protection miss",
             np_.where)
     r.check(not bad_abs, con + "::absolute", "an absolute path is normalised ('/p/d/../x', '/p//x', '/p/./x' all become '/p/x')",
             f"absolute spellings are not normalised: {bad_abs[:3]} - '/wd/d/../x' no longer matches the output 'x' of a target in /wd", np_.where)
     got = ev(np_, WD, Obj("pathlike", __fspath__="x"))
-    r.check(got in (tok("abs:" + WD + "/x"), tok("norm:" + WD + "/x")), con + "::fspath", "path objects are converted with fspath() first",
+    r.check(anchored_norm(got, WD, "x"), con + "::fspath", "path objects are converted with fspath() first",
             f"a path object is not converted before normalising (result {str(got)[:60]})", np_.where)
     nps = idx.func(f"{CORE}:_norm_paths")
     got = ev(nps, WD, ["a", "/b/../c", "./d"])
